@@ -16,4 +16,24 @@ let () =
   reg2 "inner" (fun t -> let x = t_vec t in let y = t_vec t in show_s (Kernels.inner_product_serial sc x y));
   reg2 "lin_comb" (fun t -> let cv = t_list t (fun t -> let c = t_q t in let v = t_vec t in (c, v)) in
     let alpha = t_q t in let y = t_vec t in show_vec (Kernels.lin_comb sc cv alpha y));
+  (* other backends must realise the same operator as the scalar model (block size ignored) *)
+  reg2 "bcrs.spmv" (fun t -> let _b = t_i t in let alpha = t_q t in let a = t_crs t in let x = t_vec t in let beta = t_q t in let y = t_vec t in
+    show_vec (Kernels.spmv sc alpha a x beta y));
+  reg2 "bcrs.residual" (fun t -> let _b = t_i t in let f = t_vec t in let a = t_crs t in let x = t_vec t in let r = t_vec t in
+    show_vec (Kernels.residual sc f a x r));
+  reg "hyb_spmv" (fun t -> let _b = t_i t in let alpha = t_q t in let a = t_crs t in let x = t_vec t in let beta = t_q t in let y = t_vec t in
+    show_vec (Kernels.spmv sc alpha a x beta y));
+  reg "hyb_residual" (fun t -> let _b = t_i t in let f = t_vec t in let a = t_crs t in let x = t_vec t in let r = t_vec t in
+    show_vec (Kernels.residual sc f a x r));
+  reg "eig_spmv" (fun t -> let alpha = t_q t in let a = t_crs t in let x = t_vec t in let beta = t_q t in let y = t_vec t in
+    show_vec (Kernels.spmv sc alpha a x beta y));
+  reg "eig_residual" (fun t -> let f = t_vec t in let a = t_crs t in let x = t_vec t in let r = t_vec t in
+    show_vec (Kernels.residual sc f a x r));
+  reg "eig_vec" (fun t -> match t_s t with
+    | "axpby" -> let a = t_q t in let x = t_vec t in let b = t_q t in let y = t_vec t in show_vec (Kernels.axpby sc a x b y)
+    | "axpbypcz" -> let a = t_q t in let x = t_vec t in let b = t_q t in let y = t_vec t in let c = t_q t in let z = t_vec t in
+      show_vec (Kernels.axpbypcz sc a x b y c z)
+    | "vmul" -> let a = t_q t in let x = t_vec t in let y = t_vec t in let b = t_q t in let z = t_vec t in show_vec (Kernels.vmul sc a x y b z)
+    | "inner" -> let x = t_vec t in let y = t_vec t in show_s (Kernels.inner_product_serial sc x y)
+    | _ -> "UNSUPPORTED");
   reg "norm" (fun t -> let x = t_vec t in show_s (Kernels.norm2 sc x))
